@@ -606,6 +606,23 @@ Register(c) ==
           /\ out' = [op |-> "Register", conf |-> c, status |-> "ok"]
   /\ UNCHANGED <<cfg, stack, okeys, oper, locked, usaved, interactive, singles, consts, hooks>>
 
+\* get_bindings (1401-1442): by spelling, optional explicit scope, strict / inherited scopes, raw or resolved
+GetBindings(sp, sc, resolve, inherit) ==
+  /\ "GetBindings" \in Enabled
+  /\ sp \in QuerySpellings
+  /\ LET r == ResolveConf(sp)
+         scope == IF sc # <<>> THEN sc ELSE CurScope                      \* 1371-1372, and 1387
+         base == [op |-> "GetBindings", spelling |-> sp, scope |-> sc, resolve |-> resolve, inherit |-> inherit]
+     IN IF r[1] # "one"
+        THEN /\ out' = base @@ [status |-> IF r[1] = "none" THEN "ValueError" ELSE "KeyError", result |-> {}, evals |-> <<>>]
+             /\ UNCHANGED <<okeys, oper, singles>>
+        ELSE LET kw == IF inherit THEN Overlay(cfg, r[2].sel, scope) ELSE CfgAt(cfg, scope, r[2].sel)
+                 ev == IF resolve THEN EvalMap(cfg, MkS(okeys, oper, singles, <<>>), kw, CurScope, {})    \* 1439-1440: deep copy
+                       ELSE [s |-> MkS(okeys, oper, singles, <<>>), v |-> OSet(kw), e |-> "ok"]
+             IN /\ out' = base @@ [status |-> ev.e, result |-> IF ev.e = "ok" THEN ev.v ELSE {}, evals |-> ev.s.evals]
+                /\ okeys' = ev.s.okeys /\ oper' = ev.s.oper /\ singles' = ev.s.singles
+  /\ UNCHANGED <<reg, cfg, stack, locked, usaved, interactive, consts, hooks>>
+
 \* a binding made through any spelling of the configurable's name (string key / config text): the spelling is
 \* resolved against the registry as it is *now* (923-925); ambiguous spellings raise KeyError (get_match)
 BindSp(api, scope, sp, p, v) ==
@@ -679,6 +696,7 @@ Next ==
   \/ \E on \in BOOLEAN : SetInteractive(on)
   \/ \E sc \in ScopePaths, sp \in QuerySpellings, p \in ParamNames : Query(sc, sp, p)
   \/ \E api \in BindApis, sc \in ScopePaths, sp \in QuerySpellings, p \in ParamNames, v \in BindVals : BindSp(api, sc, sp, p, v)
+  \/ \E sp \in QuerySpellings, sc \in ScopePaths, rs \in BOOLEAN, ih \in BOOLEAN : GetBindings(sp, sc, rs, ih)
 
 Spec == Init /\ [][Next]_vars
 
@@ -1053,6 +1071,15 @@ C08_SameKey ==
 C08_AmbiguousRejected ==
   [][(out'.op \in {"Bind", "Query"} /\ "spelling" \in DOMAIN out' /\ ResolveConf(out'.spelling)[1] # "one") =>
        (out'.status \in {"KeyError", "ValueError", "RuntimeError"} /\ cfg' = cfg)]_vars
+
+------------------------------------------------------------------------------
+(* get_bindings agrees with what a call would be given (C01 / C04 seen through the query API) *)
+GetBindingsAgrees ==
+  [][(out'.op = "GetBindings" /\ out'.status = "ok" /\ out'.inherit /\ ~out'.resolve) =>
+       LET c == ResolveConf(out'.spelling)[2]
+           scope == IF out'.scope # <<>> THEN out'.scope ELSE CurScope
+       IN /\ \A e \in out'.result : Applicable(cfg, c.sel, e[1], scope) # {} /\ e[2] = Longest(Applicable(cfg, c.sel, e[1], scope)).val
+          /\ \A i \in 1..Len(cfg) : (cfg[i].sel = c.sel /\ IsPrefix(cfg[i].scope, scope)) => cfg[i].param \in Dom(out'.result)]_vars
 
 ------------------------------------------------------------------------------
 (* state predicates over `out`, as action properties (so that VIEWs may drop `out`) *)
